@@ -146,6 +146,8 @@ def run_case(case, acc):
     acc.step(2 + 2 * len(seq))
     try:
         ev = make_evaluator("UNMATCHED", matcher=["thr", "IOU", 0.5, False], instance_metrics=IM_SUBSETS[im], global_metrics=GM_SUBSETS[gm], handler=handler_cfg(H_NAMES[hn]), groups=make_groups(GROUPSETS[gs]))
+        if lt and case["cfg"] % 3 == 0:
+            ev.set_log_group_times(True)  # computation_time cells are then filled: the columns behind them must not shift
         A = Panoptica_Aggregator(ev, "/vfs/d/out.tsv", log_times=bool(lt))
         expected = {}
         order = []
